@@ -170,7 +170,7 @@ def _run_docs(case, obs):
         try:
             evs = ae.get_evs("tok", "caltech", start, end, period, V, P, **kw)
         except ValueError as e:
-            if case["bp"] == "fit" and "No feasible battery size" in str(e):
+            if case["bp"] == "fit" and ("No feasible battery size" in str(e) or "Initial Charge cannot be greater" in str(e)):
                 refused = True
                 evs = []
             else:
@@ -297,7 +297,10 @@ def _run_stoch(case, obs):
         q = Gen().generate_events(spd, period, V, P, max_len=case["max_len"], battery_params=bp,
                                   force_feasible=case["ff"])
     except ValueError as e:
-        if case["bp"] == "fit" and "No feasible battery size" in str(e):
+        # a fit request that cannot be met is refused with ValueError: "No feasible battery size", or - for a stay of zero
+        # periods, where the closed form divides by zero - the Battery constructor's own "Initial Charge cannot be greater
+        # than capacity"; both are refusals, judged below (a refusal is wrong only if every sample was absorbable)
+        if case["bp"] == "fit" and ("No feasible battery size" in str(e) or "Initial Charge cannot be greater" in str(e)):
             obs.ev("stoch_batches_refused_by_fit")
             rows = _stoch_rows(mats, spd)
             ok = False
